@@ -572,4 +572,6 @@ THEOREMS = THEOREMS + ["OdxVerif.Codec." + t for t in [
     "RtHyp.seq_left", "RtHyp.seq_right", "RtHyp.sized", "reserved_resPre_of_zero",
     "exRes_free", "exU16Req_free", "exResBS_ok", "exResBS_enc", "exResBS_free",
     "C01_roundtrip_nested2U", "C01_roundtrip_nested2U_whole", "C01_roundtrip_nested2U_of_described2", "Described2X.ok", "Described2X.mono",
-    "Described2U.ok", "DescribedTopU.ok", "LeafU.ok", "exU_described", "exU_enc", "C01_reserved_in_field_items_model"]]
+    "Described2U.ok", "DescribedTopU.ok", "LeafU.ok", "exU_described", "exU_enc", "C01_reserved_in_field_items_model",
+    "C01_roundtrip_nested2R_static_wire", "Descs2R.resPre_of_static", "Desc2R.resPre_of_wire", "Descs2R.resPre_of_wire_top",
+    "Desc2R.struct_rtHyp"]]
